@@ -1033,6 +1033,22 @@ def evaluate(ops, answers):
             if l.k in good and getattr(l, "got_disconnect", None) is not None and l.end_kind in (None, "disconnect-event", "takeover", "disconnect-packet"):
                 w.viol(l.at, "C14", "well-behaved link %d (%r) was sent DISCONNECT %s by the router" % (l.k, l.name, l.got_disconnect))
         w.stats["c14_good_links_in_hostile_histories"] += len(good)
+    # ---- C16: a delivery alarm about a registered will message is (also) a last-will failure:
+    # the will was due and did not arrive / arrived although it was not due / arrived twice
+    will_payloads = set()
+    for l in w.links:
+        if l.will is not None and l.will["payload"]:
+            will_payloads.add(l.will["payload"])
+    if will_payloads:
+        import re as _re2
+        extra = []
+        for (i, pr, text) in w.v:
+            if pr in ("C01", "C08"):
+                for m in _re2.finditer(r"b'(w\d+)'", text):
+                    if m.group(1).encode() in will_payloads:
+                        extra.append((i, "C16", "last will %r: %s" % (m.group(1), text)))
+                        break
+        w.v.extend(extra)
     if w.lost is not None:
         # the ghost's picture of which connection owns which id was refuted by a ConnAck:
         # nothing it concluded about deliveries/acks is reliable; keep only the panic clause
